@@ -161,17 +161,20 @@ SameWhy(nd, R, same, undecidable) ==
 
 \* where two trees first differ (preorder), for attribution only
 Shallow(e) == SWithKids(e, [i \in 1..Len(SKids(e)) |-> NoneE])
-RECURSIVE FirstDiff(_, _)
-FirstDiff(exp, got) ==   \* exp, got already normalised; returns [who, why] or [who |-> ""]
-    IF exp = got THEN [who |-> "", why |-> ""]
+RECURSIVE FirstDiffAt(_, _, _, _)
+FirstDiffAt(exp, got, parent, pos) ==
+    \* exp, got already normalised; returns the place of the first difference: the kind of the
+    \* parent and the child position ("falsy-child": the collapsed wrapper itself)
+    IF exp = got THEN [who |-> "", why |-> "", pos |-> 0]
     ELSE IF ~IsNode(exp) \/ ~IsNode(got) \/ exp.t # got.t \/ Len(SKids(exp)) # Len(SKids(got))
             \/ Shallow(exp) # Shallow(got)
-    THEN [who |-> exp.t,
-          why |-> IF exp.t = "CSE" /\ IsNode(got) /\ got.t = "Const" /\ Falsy(exp.a)
-                  THEN "falsy-child" ELSE "differs"]
+    THEN IF IsNode(exp) /\ exp.t = "CSE" /\ IsNode(got) /\ got.t = "Const" /\ Falsy(exp.a)
+         THEN [who |-> "CSE", why |-> "falsy-child", pos |-> 0]
+         ELSE [who |-> parent, why |-> "differs", pos |-> pos]
     ELSE LET ke == SKids(exp)  kg == SKids(got)
              i == CHOOSE i \in 1..Len(ke) : ke[i] # kg[i] /\ \A j \in 1..(i - 1) : ke[j] = kg[j]
-         IN FirstDiff(ke[i], kg[i])
+         IN FirstDiffAt(ke[i], kg[i], exp.t, i)
+FirstDiff(exp, got) == FirstDiffAt(exp, got, "ROOT", 0)
 
 \* combine / collector traversals: the instrumented leaf handlers return {occurrence id};
 \* every child occurrence must have contributed
